@@ -2,7 +2,7 @@
 PATHS = ['cellA', 'cellB', 'cellC']
 
 
-def run_writes(make_limiter, writes, method, prefix=''):
+def run_writes(make_limiter, writes, method, prefix='', keep_going=False, errors=None):
     """Drive the REAL HandleLimiter. Returns (expected: dict path->str, exception or None, index of failing write)."""
     hl = make_limiter()
     expected = {}
@@ -16,6 +16,10 @@ def run_writes(make_limiter, writes, method, prefix=''):
         except Exception as e:  # noqa
             exc = e
             failed_at = i
+            if errors is not None:
+                errors.append((i, e))
+            if keep_going:      # the caller survives the error and goes on writing (the failed record is legitimately lost)
+                continue
             break
         expected[p] = expected.get(p, '') + s
     try:
